@@ -27,7 +27,7 @@ PREFIX = ["[H]", "OCC", "Br", "N#CC", "I", "CC"]
 SUFFIX = ["[Si]", "CO", "Br", "I"]
 
 DISTS_QUICK = [("gauss", [150.0, 30.0]), ("uniform", [0, 300]), ("uniform", [100, 250]), ("log_normal", [150.0, 1.2]),
-               ("poisson", [120.0]), ("flory_schulz", [0.03]), ("schulz_zimm", [200.0, 150.0]), ("gauss", [60.0, 40.0])]
+               ("poisson", [120.0]), ("poisson", [5.0]), ("flory_schulz", [0.03]), ("schulz_zimm", [200.0, 150.0]), ("gauss", [60.0, 40.0])]
 
 
 def dist_text(fam, params):
